@@ -56,6 +56,17 @@ func (m *MonC09) OnReq(w *World, r *Req) {
 	if owner == nil {
 		return
 	}
+	if isPkgKind(p.Ctrl) && isODKind(r.GVK.Kind) && r.GVK.Group == PKOGroup && (r.Verb == "create" || r.Verb == "update") && r.Succeeded() {
+		// a paused Package never hands an unpaused deployment to the deployment controller
+		if b, _ := store.Get(owner, "spec", "paused").(bool); b {
+			m.touch()
+			if ob, _ := store.Get(r.After, "spec", "paused").(bool); !ob {
+				w.Report(Violation{Property: "C09", Rule: "propagation", Sig: "package-writes-unpaused-deployment/" + shortSite(r.Site), Seq: r.Seq,
+					Msg: fmt.Sprintf("pass %d of paused %s %s wrote %s with spec.paused unset: the deployment controller is free to create and roll out revisions while the package is paused", p.ID, p.Ctrl, p.Key, r.Key())})
+				return
+			}
+		}
+	}
 	if isObjectSetKind(p.Ctrl) || isPhaseKind(p.Ctrl) {
 		if !isSpecPaused(owner) || isTeardownOwner(owner) {
 			return
